@@ -449,7 +449,7 @@ impl Family for GlueFam {
         let c = case.clone();
         let r: Result<(), Fail> = run_real(async move {
             let case = c;
-            let beh = Behaviour { synack: true, echo: true, heartbeat: case.peer_answers, server_settings: true, scheme: None, schemes: vec![], heartbeat_limit: case.answers_then_silent.map(|n| n as usize), uot_echo: None };
+            let beh = Behaviour { synack: true, echo: true, heartbeat: case.peer_answers, server_settings: true, scheme: None, schemes: vec![], heartbeat_limit: case.answers_then_silent.map(|n| n as usize), uot_echo: None, ..Default::default() };
             let srv = RefServer::start(PASSWORD, beh).await?;
             let pool = anytls_rs::client::SessionPoolConfig {
                 check_interval: Duration::from_secs(case.interval_s),
